@@ -11,22 +11,25 @@ import (
 	abci "github.com/tendermint/tendermint/abci/types"
 
 	"github.com/Oneledger/protocol/action"
+	aeth "github.com/Oneledger/protocol/action/eth"
 	agov "github.com/Oneledger/protocol/action/governance"
 	adeleg "github.com/Oneledger/protocol/action/network_delegation"
 	arew "github.com/Oneledger/protocol/action/rewards"
 	"github.com/Oneledger/protocol/action/staking"
 	"github.com/Oneledger/protocol/action/transfer"
 	"github.com/Oneledger/protocol/data/balance"
+	"github.com/Oneledger/protocol/data/ethereum"
 
 	"olverif/harness/rng"
 )
 
 // Ledger is the value-bearing part of a state dump, decoded (DESIGN §6 C02/C03).
 type Ledger struct {
-	Total     map[string]*big.Int            // currency -> total value held on chain
-	Holdings  map[string]map[string]*big.Int // owner (0lt…) -> currency -> holdings
-	Negative  []string                       // stored amounts below zero
-	Undecoded []string
+	SupplyCounter map[string]*big.Int            // wrapped currency -> value of the supply counter record (not part of Total)
+	Total         map[string]*big.Int            // currency -> total value held on chain
+	Holdings      map[string]map[string]*big.Int // owner (0lt…) -> currency -> holdings
+	Negative      []string                       // stored amounts below zero
+	Undecoded     []string
 }
 
 var e18 = new(big.Int).Exp(big.NewInt(10), big.NewInt(18), nil)
@@ -75,7 +78,7 @@ func (l *Ledger) add(owner, cur string, n *big.Int, key string) {
 // Active network delegations are mirrored by the delegation pool's balance, so they count as the
 // delegator's holdings (C03) but only once, through the pool balance, in the total (C02).
 func DecodeLedger(m map[string]string) *Ledger {
-	l := &Ledger{Total: map[string]*big.Int{}, Holdings: map[string]map[string]*big.Int{}}
+	l := &Ledger{Total: map[string]*big.Int{}, Holdings: map[string]map[string]*big.Int{}, SupplyCounter: map[string]*big.Int{}}
 	keys := make([]string, 0, len(m))
 	for k := range m {
 		keys = append(keys, k)
@@ -93,6 +96,12 @@ func DecodeLedger(m map[string]string) *Ledger {
 		case strings.HasPrefix(k, "b_"):
 			p := strings.Split(k, "_")
 			if len(p) == 3 {
+				if p[1] == supplyCounterOwner && p[2] != "OLT" {
+					// the wrapped-currency supply counter (ChainDriverOption.TotalSupplyAddr): a mirror of
+					// what was minted, kept in a balance record; not value anybody holds
+					l.SupplyCounter[p[2]] = amountAny(v)
+					continue
+				}
 				l.add(p[1], p[2], amountAny(v), k)
 			}
 		case strings.HasPrefix(k, "f_"):
@@ -380,6 +389,11 @@ func RunLedger(opt LedgerOptions) (*Result, error) {
 			}
 			if prev != nil {
 				allow := delegationRewardsOf(bb.Events, pool)
+				var codes []uint32
+				for _, t := range br.Txs {
+					codes = append(codes, t.Code)
+				}
+				wrapped := wrappedAllowance(prevDump, dump, b.Txs, codes)
 				for curName, tot := range cur.Total {
 					before := prev.Total[curName]
 					if before == nil {
@@ -388,6 +402,8 @@ func RunLedger(opt LedgerOptions) (*Result, error) {
 					lim := new(big.Int).Set(before)
 					if curName == "OLT" {
 						lim.Add(lim, allow)
+					} else if wa := wrapped[curName]; wa != nil {
+						lim.Add(lim, wa)
 					}
 					if tot.Cmp(lim) > 0 {
 						res.Hit("value-created", c, fmt.Sprintf("block %d currency %s: total %s -> %s (allowed accrual %s, excess %s); txs: %s", b.Height, curName, before, tot, allow, new(big.Int).Sub(tot, lim), txSummary(gts, br)), hl.Lines)
@@ -438,4 +454,116 @@ func txSummary(gts []GenTx, br *BlockResult) string {
 		s = append(s, fmt.Sprintf("%s(%s)=%d", t.Kind, t.Note, br.Txs[i].Code))
 	}
 	return strings.Join(s, ", ")
+}
+
+// supplyCounterOwner is the owner part of the balance key of the wrapped-currency supply counter.
+var supplyCounterOwner = AddrStr([]byte(ethSupplyAddr))
+
+// wrappedAllowance is what the total of a wrapped currency may grow by in one block: the amounts
+// of the lock trackers for which more than two thirds of the tracker's witnesses have reported
+// success once the block's accepted finality reports are counted, and of the redeem trackers for
+// which more than two thirds have reported failure, provided the threshold was not already met
+// before the block. Votes are counted by the harness itself: the votes recorded in the previous
+// committed state plus the reports delivered with code 0 in this block, one per witness, each at
+// the witness's own index. Amounts are read with go-ethereum's transaction decoder and the ABI
+// layout, not with the repo's parsers.
+func wrappedAllowance(prev, cur map[string]string, txs [][]byte, codes []uint32) map[string]*big.Int {
+	out := map[string]*big.Int{}
+	pv, err1 := decodeEthView(prev)
+	cv, err2 := decodeEthView(cur)
+	if err1 != nil || err2 != nil {
+		return out
+	}
+	type tally struct {
+		t       *ethereum.Tracker
+		yes, no map[string]bool
+	}
+	tl := map[string]*tally{}
+	get := func(name string) *tally {
+		if x := tl[name]; x != nil {
+			return x
+		}
+		var t *ethereum.Tracker
+		x := &tally{yes: map[string]bool{}, no: map[string]bool{}}
+		if t = pv.Store[0][name]; t != nil {
+			for i, v := range t.FinalityVotes {
+				if i < len(t.Witnesses) {
+					if v == 1 {
+						x.yes[string(t.Witnesses[i])] = true
+					}
+					if v == 2 {
+						x.no[string(t.Witnesses[i])] = true
+					}
+				}
+			}
+		} else {
+			// submitted in this block: the record of the new state names type, witnesses and external tx
+			for i := 0; i < 3 && t == nil; i++ {
+				t = cv.Store[i][name]
+			}
+		}
+		if t == nil {
+			return nil
+		}
+		x.t = t
+		tl[name] = x
+		return x
+	}
+	met := func(x *tally) (bool, bool) {
+		thr := len(x.t.Witnesses)*2/3 + 1
+		return len(x.yes) >= thr, len(x.no) >= thr
+	}
+	before := map[string][2]bool{}
+	for name := range pv.Store[0] {
+		if x := get(name); x != nil {
+			y, n := met(x)
+			before[name] = [2]bool{y, n}
+		}
+	}
+	for i, tx := range txs {
+		if i >= len(codes) || codes[i] != 0 {
+			continue
+		}
+		st, ok := parseSigned(tx)
+		if !ok || st.Type != action.ETH_REPORT_FINALITY_MINT {
+			continue
+		}
+		rf := &aeth.ReportFinality{}
+		if rf.Unmarshal(st.Data) != nil {
+			continue
+		}
+		name := new(big.Int).SetBytes(rf.TrackerName[:]).String()
+		x := get(name)
+		if x == nil || rf.VoteIndex < 0 || int(rf.VoteIndex) >= len(x.t.Witnesses) {
+			continue
+		}
+		w := string(x.t.Witnesses[rf.VoteIndex])
+		if w != string(rf.ValidatorAddress) || x.yes[w] || x.no[w] {
+			continue
+		}
+		if rf.Success {
+			x.yes[w] = true
+		} else {
+			x.no[w] = true
+		}
+	}
+	for name, x := range tl {
+		y, n := met(x)
+		kind := int(x.t.Type)
+		curName := "ETH"
+		if kind == 3 || kind == 4 {
+			curName = "TTC"
+		}
+		lock := kind == 1 || kind == 3
+		if (lock && y && !before[name][0]) || (!lock && n && !before[name][1]) {
+			a, _ := new(big.Int).SetString(extAmount(kind, x.t.SignedETHTx), 10)
+			if a != nil {
+				if out[curName] == nil {
+					out[curName] = new(big.Int)
+				}
+				out[curName].Add(out[curName], a)
+			}
+		}
+	}
+	return out
 }
